@@ -43,7 +43,10 @@ vars == <<row, phase, sni, clientCert, cqlSent>>
 (*            (valid_since_config)                                                *)
 \*            "lookalike": a chain that copies every name and number of a genuine chain (subject, issuer name, serial
 \*            number, names, validity) but none of its keys - issued by a private CA carrying the bundle CA's name
-Signers == {"int", "intexp", "direct", "other", "self", "lookalike"}
+\*            "borrowed": the server proves possession of a certificate of its own making (self-signed, flagged as a CA) and
+\*            appends (extra) the PUBLIC certificate of a genuine server - right CA, right name, current - whose key it does
+\*            not have: the certificate that authenticates the server is the first one, whatever else is presented
+Signers == {"int", "intexp", "direct", "other", "self", "lookalike", "borrowed"}
 SANs == {"bundleHost", "otherName", "sniName"}
 Validities == {"current", "expired", "notyet", "expired_since_config", "valid_since_config"}
 TimeShifted == {"expired_since_config", "valid_since_config"}
@@ -63,6 +66,7 @@ Why(c) ==
     IF c = EmptyChain THEN {"empty-chain"}
     ELSE (IF c.signer \in {"other", "self"} THEN {"signer=" \o c.signer} ELSE {})
          \cup (IF c.signer = "lookalike" THEN {"signer=lookalike"} ELSE {})
+         \cup (IF c.signer = "borrowed" THEN {"signer=borrowed"} ELSE {})
          \cup (IF c.signer \in {"int", "intexp"} /\ ~c.extra THEN {"intermediate-missing"} ELSE {})
          \cup (IF c.signer = "intexp" THEN {"intermediate=expired"} ELSE {})
          \cup (IF c.san # "bundleHost" THEN {"name=" \o c.san} ELSE {})
@@ -148,7 +152,8 @@ ASSUME ClassesSane ==
     /\ Accept([signer |-> "direct", extra |-> TRUE, san |-> "bundleHost", validity |-> "current"])
     /\ Accept([signer |-> "int", extra |-> TRUE, san |-> "bundleHost", validity |-> "current"])
     /\ Cardinality({c \in Chains : Accept(c)}) = 6
-    /\ Cardinality(Chains) = 180
+    /\ Cardinality(Chains) = 210
+    /\ \A c \in Chains : c.signer = "borrowed" => ~Accept(c)              \* a genuine certificate shown, its key not held
     /\ \A c \in Chains : c.signer = "lookalike" => ~Accept(c)             \* copied names and numbers, foreign keys
     /\ \A c \in Chains \cup {EmptyChain} : Accept(c) <=> Why(c) = {}
 
